@@ -90,6 +90,7 @@ BOUNDS = {
              "and per-pixel maps mixing {1,2,3}, {2,3} and all-ones; geometry (one configuration per enumerated case, cycled; both-symbolic on a listed subset incl. all masks of 3x3 kernels / 2x3 sampler / 3x2 decorator, single-pixel iterate): symbolic origin with concrete anisotropic scales "
              "(1.5,3.0)/(0.75,6.0)/(3.0,1.5), or symbolic anisotropic scales in [1/8,8] with origin (0,0), or both symbolic (affine coefficients concrete there); sub-values and affine coefficients: symbolic reals; user function: uninterpreted f(y,x); "
              "each sampler/decorator case runs a 3-step history (two origins, two scale pairs) in one process; decorator routes: Grid2D.from_mask / Grid2D.uniform / Grid2D(values=symbolic) / GridsDataset.uniform / GridsDataset.pixelization / Grid2DOverSampled; "
+             "integer / bool valued sub-values and user functions: every 0/1 (resp. -1/+1) pattern of up to 8 (thorough 13) sub-values on 1-2 pixel masks; "
              "iterate: schedules [2,3],[2,4],[3,2],[2,3,4],[2,2,3] on listed masks with 1-2 unmasked pixels (sampler and decorator routes), fractional accuracy symbolic in (0,1], "
              "absolute tolerance unset or symbolic >= 0",
     "thorough": "as quick with every mask of shapes H,W <= 4, H*W <= 12 (kernels) / H,W <= 3 (classes, decorator), uniform sub-size 4 and maps mixing {1,2,4}, "
@@ -798,7 +799,88 @@ def case_iterate(ctx, mask_name, steps, geom, rel_set, route="sampler"):
     _validate_with(ctx, body_iterate, inputs, kw, actual, all_margins, every=4)
 
 
-BODIES = {"case_kernels": body_kernels, "case_sampler": body_sampler, "case_decorator": body_decorator, "case_iterate": body_iterate}
+# ------------------------------------------------------------------------------------------------ (5) integer / bool valued sub-values
+
+def body_discrete(inp, H, W, pattern, kind):
+    """the binned value is the arithmetic MEAN (a fraction) also when the sub-values / the user function's output live in an integer or
+    bool array (indicator, step, sign functions).  The sub-values are solver booleans explored by forking (like mask bits):
+    kind "bool" -> values b in a bool array, "int" -> 2b-1 in {-1,+1} in an int64 array, "int32" -> b in an int32 array."""
+    import autoarray as aa
+    from autoarray.operators.over_sampling import over_sample_util as ou
+    from autoarray.operators.over_sampling.decorator import over_sample
+    from autoarray.structures import decorators
+    fresh_process()
+    mask = np.array(inp["mask"], dtype=bool).reshape(H, W)
+    oy, ox = inp["origin"]
+    sy, sx = inp["scales"]
+    pos = ref_pixels(mask)
+    subs = sub_map(mask, pattern)
+    total = sum(n * n for n in subs)
+    bits = [bool(b) for b in np.asarray(inp["bits"]).reshape(-1)[:total]]
+    if kind == "bool":
+        vals = np.array(bits, dtype=bool)
+    elif kind == "int":
+        vals = np.array([2 * int(b) - 1 for b in bits], dtype=np.int64)
+    else:
+        vals = np.array([int(b) for b in bits], dtype=np.int32)
+    exp, k = [], 0
+    for n in subs:
+        exp.append(ref_mean([float(vals[k + i]) for i in range(n * n)], n))
+        k += n * n
+    exp = np.array(exp, dtype=float)
+    m = aa.Mask2D(mask=mask, pixel_scales=(sy, sx), origin=(oy, ox))
+    sub_size = _sampler_sub_size(aa, m, mask, pattern)
+    A, E = {}, {}
+    A["kernel.binned"] = hx.attempt(ou.binned_array_2d_from, array_2d=vals.copy(), mask_2d=mask, sub_size=np.array(subs).astype("int"))
+    E["kernel.binned"] = exp
+    s = aa.OverSamplerUniform(mask=m, sub_size=sub_size)
+    A["binned.ndarray"] = hx.attempt(lambda: s.binned_array_2d_from(array=vals.copy()).slim.array)
+    E["binned.ndarray"] = exp
+    A["binned.ArrayIrregular"] = hx.attempt(lambda: s.binned_array_2d_from(array=aa.ArrayIrregular(values=vals.copy())).slim.array)
+    E["binned.ArrayIrregular"] = exp
+
+    def g(grid):                       # indicator-like user function: its value at the k-th sub-point (slim order) is vals[k]
+        assert np.asarray(hx.unwrap(grid)).shape[0] == total
+        return vals.copy()
+
+    A["array_via_func"] = hx.attempt(lambda: s.array_via_func_from(lambda obj, grid, *a, **kw: g(grid), object()).slim.array)
+    E["array_via_func"] = exp
+
+    class Indicator:
+        centre = (0.0, 0.0)
+
+        @over_sample
+        @decorators.to_array
+        def image_2d_from(self, grid, *args, **kwargs):
+            return g(grid)
+
+        @over_sample
+        def raw_2d_from(self, grid, *args, **kwargs):
+            return g(grid)
+
+    over = aa.OverSamplingUniform(sub_size=sub_size)
+    if max(subs) > 1:                  # (an all-ones map is evaluated plainly on the pixel-centre grid: nothing to bin)
+        grid = aa.Grid2D.from_mask(mask=m, over_sampling=over)
+        A["decorated"] = hx.attempt(lambda: Indicator().image_2d_from(grid).slim.array)
+        E["decorated"] = exp
+        A["decorated_raw"] = hx.attempt(lambda: Indicator().raw_2d_from(grid).slim.array)
+        E["decorated_raw"] = exp
+    return A, E
+
+
+def case_discrete(ctx, mask_name, pattern, geom, kind):
+    mask = listed_mask(mask_name)
+    H, W = mask.shape
+    origin, scales = _geom_inputs(ctx, geom)
+    total = sum(n * n for n in sub_map(mask, pattern))
+    bits = ctx.concrete_bools(V.bool_array("b", (total,)))
+    ctx.set_case(mask=mask.tolist(), bits=bits.tolist())
+    inputs = {"mask": mask, "origin": origin, "scales": scales, "bits": bits}
+    hx.run_body(ctx, body_discrete, inputs, {"H": H, "W": W, "pattern": pattern, "kind": kind}, validate_every=16)
+
+
+BODIES = {"case_kernels": body_kernels, "case_sampler": body_sampler, "case_decorator": body_decorator, "case_iterate": body_iterate,
+          "case_discrete": body_discrete}
 
 
 GEOM_CYCLE = ["g0", "sym", "g1", "g2"]
@@ -856,6 +938,12 @@ def cases(tier):
         out.append(("case_sampler", {"H": 2, "W": 3, "pattern": "u3", "geom": "both"}, {"timeout_ms": 90000, "split": 2}))
     for (hh, ww, p, route) in [(2, 2, "mB", "from_mask"), (3, 2, "mA", "from_mask"), (2, 3, "u2", "oversampled"), (2, 2, "m2", "values"), (1, 3, "m1", "dataset")]:
         out.append(("case_decorator", {"H": hh, "W": ww, "pattern": p, "geom": "both", "route": route}, {"timeout_ms": 90000}))
+    # (5) integer / bool valued sub-values and user functions (every 0/1 pattern of the sub-values by forking)
+    disc = [("one33", "u2", "g0", "bool"), ("two13", "mA", "sym", "int"), ("two13", "u2", "g1", "int32"), ("one23", "u2", "both", "int")]
+    if not quick:
+        disc += [("one23", "u3", "g2", "int"), ("two23", "u2", "sym", "bool"), ("two13", "m2", "g0", "bool")]
+    for (mn, p, geom, kind) in disc:
+        out.append(("case_discrete", {"mask_name": mn, "pattern": p, "geom": geom, "kind": kind}))
     # (4) iterative scheme
     it = [("one33", [2, 3], "g0", False, "sampler"), ("two23", [2, 3], "sym", False, "sampler"),
           ("one23", [2, 4], "g1", True, "sampler"), ("two13", [2, 4], "g2", False, "decorator"),
@@ -875,6 +963,8 @@ def cases(tier):
         kw = c[1]
         if c[0] == "case_iterate":
             return 10 ** 6
+        if c[0] == "case_discrete":
+            return 10 ** 5
         if kw.get("mask_name"):
             return 300
         return 2 ** (kw["H"] * kw["W"])
